@@ -386,9 +386,9 @@ func c01(c *an.Ctx) {
 	{
 		r := c.Rule("C01.T1", "K-WHOCALLS", "engine: removeWalFiles / WAL.Remove / RemoveWalFiles callers (log files are deleted only after flush or replay)")
 		c.WhoCalls(r, obj(r, E+":removeWalFiles"), "removeWalFiles", an.Allowed{
-			E + ":RemoveWalFiles":            "the only entry (stream mode diverts to moveToStream)",
-			E + ":(*ColumnStoreImpl).flush":  "column-store flush, after commitSnapshot (C01.R3b)",
-			E + ":(*StreamWalManager).Free":  "log files handed to the stream manager by moveToStream after their flush; freed once the stream consumed them",
+			E + ":RemoveWalFiles":           "the only entry (stream mode diverts to moveToStream)",
+			E + ":(*ColumnStoreImpl).flush": "column-store flush, after commitSnapshot (C01.R3b)",
+			E + ":(*StreamWalManager).Free": "log files handed to the stream manager by moveToStream after their flush; freed once the stream consumed them",
 		})
 		c.WhoCalls(r, obj(r, E+":RemoveWalFiles"), "RemoveWalFiles", an.Allowed{
 			E + ":(*tsstoreImpl).writeSnapshot": "after commitSnapshot (C01.R3)",
@@ -401,13 +401,7 @@ func c01(c *an.Ctx) {
 
 // refIs: e is a reference (ident/selector) to obj.
 func refIs(f *an.Fn, e ast.Expr, o types.Object) bool {
-	switch x := ast.Unparen(e).(type) {
-	case *ast.Ident:
-		return f.Info.Uses[x] == o
-	case *ast.SelectorExpr:
-		return f.Info.Uses[x.Sel] == o
-	}
-	return false
+	return f.RefIs(e, o)
 }
 
 func usesConstValue(f *an.Fn, val string) bool {
@@ -452,7 +446,6 @@ func isResetOf(f *an.Fn, n ast.Node, fld types.Object) bool {
 	}
 	return false
 }
-
 
 func init() {
 	old := All["C01"].Run
